@@ -127,7 +127,7 @@ CLAIMED["C12"] = {
 
 CLAIMED["C11"] = {
     "text": "PARTIAL proof. Lean theorems over the lexer port (the component the property's assert/internal_error anchors live in): lexer_no_internal_error - for EVERY text tokenize returns tokens or an ordinary diagnostic: no internal_error site is reachable (advance past end, presume, Lexer::error fallback, invalid string start, empty interpolation stack, non-delimiter), by Hoare-style reasoning over the model (every advance/presume guarded by what the dispatch looked at, string scanner keeps `lexeme starts with its delimiter`, body scanner stops on text that is still there, advance_n within the leading white space); NONE of the lexer's four assert_eq!s can fail on any text (lex_dedent's current_token_length()==0 and the three at the end of tokenize), proved through loop invariants - idle at every loop head, indentation stack = empty string under non-empty strings, no text left at loop exit - lifted through all lexing functions by four small calculi (ends-idle, keeps-idle, keeps-stack, not-an-assert-error); byte-offset slicing never leaves the text at the three sites the property names: Token::lexeme (every token's slice is a run of whole characters of the source), unindent (the common indentation is a prefix of every line that is sliced and consists of spaces/tabs only - model of src/unindent.rs tied by an exhaustive differential), run_linewise's sigil strip (the stripped bytes are the leading @/- of the evaluated text); cook_unwrap_safe: the from_str_radix(..).unwrap() of \\u{..} escapes cannot fail on any string (model of cook_string tied by a differential over ~14k literals incl. surrogate and out-of-range escapes, indented strings); the main loop of Lexer::tokenize terminates on EVERY text - each round that continues consumes at least one character in normal, body and interpolation mode, for every lexer state, so the model's fuel (length+1) is never exhausted; no lexing function un-reads text; the diagnostic printer's `invalid line number` internal error is unreachable for every lexer error. The model turns each assert_eq!/internal_error site into an explicit Internal result, so sources on which the model says Internal are predicted crashes (this is how the backslash-at-EOF panic was found and fixed). Everything else is enumeration, not proof: in-process lex+compile (parse, analyze, dump, format) under catch_unwind of ~40k (quick) / ~500k (thorough) enumerated, random and mutated sources compared with the model; unindent on all strings <=7 (8) over a whitespace alphabet incl. form feed/NBSP; 31 constructs nested or chained 256/1000/30000(/100000) times; ~1900 command lines over 45 option templates x 43 hostile operands; all 73 built-in functions with hostile arguments; every parameter-list shape of length <=3 x 0..3 arguments x direct/dependency calls; 29 recipe-line shapes (sigils, shebangs, continuations) x 4 attribute/setting contexts.",
-    "note": "Partial: theorems cover the lexer completely (total, no internal error, no assertion failure, located errors) and the three byte-slicing sites; parser/analyzer/evaluator/CLI totality is decided by enumeration (testing). Known findings (recorded, not repaired): stack overflow on long +, /, &&, else-if chains and on long variable / recipe dependency chains; `#!` with empty interpreter reports an internal error. Fixed: backslash at EOF panic (lexer), --show ' ' panic, datetime(\"%Q\") panic, --timestamp-format panic.",
+    "note": "Partial: theorems cover the lexer completely (total, no internal error, no assertion failure, located errors), the three byte-slicing sites, the cook_string unwrap, and termination of the parser (parser_loop_progress, parser_needs_no_fuel: on the token-level model of parse_ast and all it calls, every loop turn consumes a token and 8*tokens+12 fuel is as good as any - no hang); stack depth, analyzer/evaluator/CLI totality are decided by enumeration (testing). Known findings (recorded, not repaired): stack overflow on long +, /, &&, else-if chains and on long variable / recipe dependency chains; `#!` with empty interpreter reports an internal error. Fixed: backslash at EOF panic (lexer), --show ' ' panic, datetime(\"%Q\") panic, --timestamp-format panic.",
     "technique": "Lean 4 proof (termination by a strict-consumption calculus over the lexer model) + in-process and process-level enumeration for the unmodelled parts",
     "design": "4/C11",
 }
